@@ -292,7 +292,7 @@ def run(res, tier, seed):
     # that record — the two must not be confused in the error that names the record and the field
     for _ in range(600 if tier == 'quick' else 6000):
         A = qgen.gen_table(rnd, nrows=rnd.randint(1, 5), ncols=2, ragged=0.3, none_p=0.3, pool=['k1', 'k2', 'x'])
-        B = qgen.gen_table(rnd, nrows=rnd.randint(0, 3), ncols=2, ragged=0.0, none_p=0.2, full_cols=0, pool=['k1', 'k2', 'v'])
+        B = qgen.gen_table(rnd, nrows=rnd.randint(0, 4), ncols=2, ragged=rnd.choice([0.0, 0.4]), none_p=0.2, full_cols=0, pool=['k1', 'k2', 'v'])        # a ragged join table: its field-count warning must appear
         kind = rnd.choice(['inner', 'left', 'strict'])
         q = rnd.choice([{'items': [{'e': ['a', 0]}, {'e': ['b', 1]}], 'join': {'kind': kind, 'lhs': [1], 'rhs': [0]}},
                         {'items': ['star'], 'join': {'kind': kind, 'lhs': [0, 1], 'rhs': [0, 1]}},
